@@ -4,7 +4,8 @@ set -e
 cd "$(dirname "$0")"
 /venv/bin/python tools/extract.py || true     # regenerate lean/ICal/Gen from /repo (a failure is reported by the checks)
 cd lean
-flock .build.lock lake build ICal icalmodel 2>&1 | tail -5
+TARGETS=$(ls ICal/Props/*.lean | sed 's#/#.#g; s#\.lean$##')
+flock .build.lock lake build $TARGETS icalmodel 2>&1 | tail -5
 test -x .lake/build/bin/icalmodel
 cd ..
 /venv/bin/python -m compileall -q harness tools >/dev/null
